@@ -60,6 +60,31 @@
 (* outcome as a named deviation and is never enabled now that              *)
 (* known_findings.json lists C06-iter-single-line as fixed.                *)
 (*                                                                         *)
+(* Kinds of file object.  ArFile(fileobj=f) accepts ANY seekable binary     *)
+(* file object; what the index walk and the members may rely on is the     *)
+(* byte STREAM f presents (read / readline / seek / tell), modelled by     *)
+(* arch and fp.  A file object moreover may or may not have an operating   *)
+(* system descriptor underneath (fileno()), and that descriptor need not   *)
+(* name the stream: fdk is the relation between the two --                 *)
+(*   "none"  no descriptor (io.BytesIO, a member of a tar / zip container, *)
+(*           a buffered reader over a raw stream without fileno()),        *)
+(*   "same"  the descriptor is a regular file holding exactly the stream   *)
+(*           (open(path, "rb") buffered or not, a spooled temporary file), *)
+(*   "less"  the descriptor names a SMALLER file (gzip.GzipFile /          *)
+(*           bz2.BZ2File / lzma.LZMAFile over the compressed archive),     *)
+(*   "more"  the descriptor names a LARGER file (a window into a container *)
+(*           file, a compressed copy of a tiny / incompressible archive).  *)
+(* FdSize is what os.fstat(f.fileno()).st_size would say (-1: no           *)
+(* descriptor).  The code never looks at it and neither does this model:   *)
+(* IndexExact, Refines, SameResult and Isolation hold for every fdk.  The  *)
+(* INDEX cases of the index configuration are emitted per (archive, mode,  *)
+(* fdk) as IOPEN lines and the harness hands the real ArFile a file object *)
+(* of that class.  By-name archives are opened by ArFile itself: "same".   *)
+(* Negative control (run in every check): TrustFd = TRUE (the index walk   *)
+(* rejects a member whose data would end beyond FdSize -- a "truncated     *)
+(* archive" check that asks the descriptor for the size) makes TLC report  *)
+(* IndexExact violated for fdk = "less".                                   *)
+(*                                                                         *)
 (* This module is about ONE archive whose file does not change.  What      *)
 (* happens when the process opens several archives under the same path     *)
 (* name (file rewritten / renamed into place, earlier members left         *)
@@ -69,11 +94,13 @@ EXTENDS ArMemberRef
 
 CONSTANTS Modes,           \* subset of {"shared", "byname"}
           ClampReadline, PadOdd, SeekFirst,
-          IterYieldsAll    \* TRUE: __iter__ as repaired (225a5e1); FALSE: the old single-line generator
+          IterYieldsAll,   \* TRUE: __iter__ as repaired (225a5e1); FALSE: the old single-line generator
+          FdKinds,         \* subset of {"none", "same", "less", "more"}: what is underneath a shared file object
+          TrustFd          \* FALSE: the size of the descriptor is never consulted (the code); TRUE: negative control
 
-VARIABLES arch, mode, pc, table, byname, cur, fp, ret
+VARIABLES arch, mode, fdk, pc, table, byname, cur, fp, ret
 
-ivars == <<arch, mode, pc, table, byname, cur, fp, ret>>
+ivars == <<arch, mode, fdk, pc, table, byname, cur, fp, ret>>
 vars  == <<rvars, ivars>>
 
 GL == 2     \* cells of the global header
@@ -101,12 +128,19 @@ FLineLen(p, lim) == IF p >= Len(arch) \/ lim = 0 THEN 0
 FReadLine(p, lim) == SubSeq(arch, p + 1, p + FLineLen(p, lim))
 
 ----------------------------------------------------------------------------
+\* what os.fstat(f.fileno()).st_size says about the file object the index walk reads (-1: no descriptor)
+FdSize == CASE fdk = "none" -> 0 - 1
+            [] fdk = "same" -> Len(arch)
+            [] fdk = "less" -> Len(arch) \div 2
+            [] fdk = "more" -> Len(arch) + 1
+
 IRes(k, v, n) == [k |-> k, v |-> v, n |-> n]
 NoRet == IRes("-", <<>>, 0)
 
 Init == /\ RInit
         /\ arch = ArchOf(mem)
         /\ mode \in Modes
+        /\ fdk \in (IF mode = "byname" THEN {"same"} ELSE FdKinds)
         /\ pc = "global"
         /\ table = <<>>
         /\ byname = [nm \in Names |-> 0]
@@ -121,18 +155,23 @@ Global == /\ pc = "global"
           /\ LET buf == FRead(fp[0], GL) IN
              /\ pc' = IF buf = GCells THEN "header" ELSE "error"
              /\ SetFp(0, fp[0] + Len(buf))
-          /\ UNCHANGED <<rvars, arch, mode, table, byname, cur, ret>>
+          /\ UNCHANGED <<rvars, arch, mode, fdk, table, byname, cur, ret>>
 
 \* ArMember.from_file + append + members_dict[name] = member
 Header == /\ pc = "header"
           /\ LET buf == FRead(fp[0], HL) IN
              IF buf = <<>>                         \* end of archive: the index is complete
              THEN /\ pc' = "ready" /\ AOpen
+                  /\ (Emit => PrintT(<<"IOPEN", ToJson([a |-> mem, mode |-> mode, fd |-> fdk])>>))
                   /\ SetFp(0, IF mode = "shared" THEN fp[0] ELSE -1)     \* by name: `with open(...)` closes it
                   /\ UNCHANGED <<table, byname, cur>>
              ELSE IF Len(buf) < HL \/ buf[1].own # 0 \/ buf[1].b # HFIELDS \/ buf[HL] # Cell(0, buf[1].i, NL)
              THEN /\ pc' = "error"                 \* IOError: header length / file magic
                   /\ SetFp(0, fp[0] + Len(buf))
+                  /\ UNCHANGED <<rvars, table, byname, cur>>
+             ELSE IF TrustFd /\ FdSize >= 0 /\ fp[0] + HL + Len(mem[buf[1].i].data) > FdSize
+             THEN /\ pc' = "error"                 \* negative control: "member extends past the end of the file"
+                  /\ SetFp(0, fp[0] + HL)
                   /\ UNCHANGED <<rvars, table, byname, cur>>
              ELSE LET k   == buf[1].i              \* the fields of header k
                       off == fp[0] + HL            \* fp.tell() after the header
@@ -143,13 +182,13 @@ Header == /\ pc = "header"
                      /\ byname' = [byname EXCEPT ![new.name] = Len(table) + 1]
                      /\ cur' = [cur EXCEPT ![Len(table) + 1] = off]
                      /\ UNCHANGED rvars
-          /\ UNCHANGED <<arch, mode, ret>>
+          /\ UNCHANGED <<arch, mode, fdk, ret>>
 
 Skip == /\ pc = "skip"
         /\ LET sz == table[Len(table)].size IN
            SetFp(0, fp[0] + (IF sz % 2 = 0 \/ ~PadOdd THEN sz ELSE sz + 1))
         /\ pc' = "header"
-        /\ UNCHANGED <<rvars, arch, mode, table, byname, cur, ret>>
+        /\ UNCHANGED <<rvars, arch, mode, fdk, table, byname, cur, ret>>
 
 ----------------------------------------------------------------------------
 \* ---- ArMember file interface
@@ -192,7 +231,7 @@ IApply(m, r, newcur, newfp) ==
    /\ ret' = r
    /\ cur' = [cur EXCEPT ![m] = newcur]
    /\ SetFp(H(m), newfp)
-   /\ UNCHANGED <<arch, mode, pc, table, byname>>
+   /\ UNCHANGED <<arch, mode, fdk, pc, table, byname>>
 
 IRd(m, size) == LET r == RdStep(m, cur[m], fp[H(m)], size) IN IApply(m, IRes("b", <<r.buf>>, 0), r.cur, r.fp)
 IRl(m, lim)  == LET r == RlStep(m, cur[m], fp[H(m)], lim)  IN IApply(m, IRes("b", <<r.buf>>, 0), r.cur, r.fp)
@@ -237,12 +276,13 @@ Next == \/ Global \/ Header \/ Skip
 
 Spec == Init /\ [][Next]_vars
 \* ret, aret, aidx, am are outputs
-ImplView == <<mem, opened, pos, mode, pc, table, byname, cur, fp>>
+ImplView == <<mem, opened, pos, mode, fdk, pc, table, byname, cur, fp>>
 
 ----------------------------------------------------------------------------
 TypeOK == /\ RTypeOK
           /\ pc \in {"global", "header", "skip", "ready", "error"}
           /\ mode \in Modes
+          /\ fdk \in {"none", "same", "less", "more"} /\ (mode = "byname" => fdk = "same")
           /\ \A h \in 0..MaxMembers : fp[h] \in -1..(Len(arch) + SeekMax)     \* seeking a file past its end is legal
           /\ arch = ArchOf(mem)
 
